@@ -59,7 +59,7 @@ use std::time::Duration;
 pub static INFO: PropInfo = PropInfo {
     id: "C12",
     level: "exploration",
-    rule: "one evaluation = one random sequence of 400-1600 public API calls (after a scripted prelude that walks through every cause of disconnection once) on one RenetServer with 2-4 client ids and a pool of up to 6 RenetClients (remote peers, stand-alone, local clients): add/remove_connection, disconnect, disconnect_all, new/disconnect/process_local_client, send/broadcast(_except)/receive, process_packet(_from) with honest, mutated, crafted and random datagrams, get_packets_to_send, update, get_event (drained at random moments, sometimes one event at a time), set_connected/connecting, disconnect, disconnect_due_to_transport, over-budget sends. A reference state machine per id (Absent | Healthy | Dead(first reason)) and per client observes presence and status after every call and compares: a dead object stays dead with the same reason, emits nothing, yields nothing, accepts nothing; the per-id event stream alternates and each removal reports the first reason. Non-trivial = at least 3 distinct causes of disconnection occurred, at least one removal of an already-dead connection was reported and at least 20 probes were made on dead objects; distinct = distinct hashes of (operation, observed transition, event) history.",
+    rule: "one evaluation = one random sequence of 400-1600 public API calls (after a scripted prelude that walks through every cause of disconnection once) on one RenetServer with 2-4 client ids and a pool of up to 6 RenetClients (remote peers, stand-alone, local clients): add/remove_connection, disconnect, disconnect_all, new/disconnect/process_local_client, send/broadcast(_except)/receive, process_packet(_from) with honest, mutated, crafted and random datagrams, get_packets_to_send, update, get_event (drained at random moments, sometimes one event at a time; in a third of the runs one churn of 130-220 add / disconnect / remove rounds with no polling at all, 260+ unread events, then a full drain), set_connected/connecting, disconnect, disconnect_due_to_transport, over-budget sends. A reference state machine per id (Absent | Healthy | Dead(first reason)) and per client observes presence and status after every call and compares: a dead object stays dead with the same reason, emits nothing, yields nothing, accepts nothing; the per-id event stream alternates and each removal reports the first reason. Non-trivial = at least 3 distinct causes of disconnection occurred, at least one removal of an already-dead connection was reported and at least 20 probes were made on dead objects; distinct = distinct hashes of (operation, observed transition, event) history.",
     assumptions: &[
         "symmetric channel lists (client list == server list) in this driver; lists that differ between the directions, local clients included, are exercised by C01-C03 (asymmetric kinds) and by C11's host-player runs",
         "a disconnect observed during a call that is not a named cause (update, receive_message, status setters) is adopted as the first reason and counted, not judged",
@@ -1383,7 +1383,28 @@ pub fn one_run(ctx: &Ctx, out: &mut Outcome, run_seed: u64) {
     w.prelude(&mut r, ctx, out);
     let n_ops = r.range(400, 1600);
     let mut i = 0;
+    // a late-polling application: once per run (1 in 3) a long churn of connects and removals during which get_event
+    // is never called, hundreds of unread events; then everything is polled
+    let churn_at = if r.chance(1, 3) { Some(r.range(0, n_ops)) } else { None };
     while i < n_ops && !w.aborted && !out.should_stop() {
+        if Some(i) == churn_at {
+            let rounds = r.range(130, 220);
+            let ids = w.ids.clone();
+            for k in 0..rounds {
+                let id = ids[(k as usize) % ids.len()];
+                w.add_connection(id, ctx, out);
+                if r.chance(1, 2) {
+                    w.disconnect(id, ctx, out);
+                }
+                w.remove_connection(id, ctx, out);
+                if w.aborted {
+                    break;
+                }
+            }
+            out.count("late_polling_churns");
+            out.add("late_polling_unread_events_at_least", rounds * 2);
+            w.drain_events(usize::MAX, ctx, out);
+        }
         w.step(&mut r, ctx, out);
         i += 1;
     }
